@@ -12,8 +12,15 @@ use std::rc::Rc;
 
 /// rules used by the runner suite only (control flow is judged here, not the meaning of the rules): a non-linear left side
 /// that starts to match once its two children are found to be the same class up to a symmetry
-const EXTRA: [(&str, &str, &str, &[(&str, &str)]); 3] =
-    [("k-same", "(k ?a ?a)", "?a", &[]), ("k-same-h", "(k ?a ?a)", "(h ?a)", &[]), ("k-comm", "(k ?a ?b)", "(k ?b ?a)", &[])];
+const EXTRA: [(&str, &str, &str, &[(&str, &str)]); 6] = [
+    ("k-same", "(k ?a ?a)", "?a", &[]),
+    ("k-same-h", "(k ?a ?a)", "(h ?a)", &[]),
+    ("k-comm", "(k ?a ?b)", "(k ?b ?a)", &[]),
+    // three rules that each flip one pair of a six-slot class: three independent symmetries, proven one after the other
+    ("flip-first", "(t3 (f2 $a $b) ?y ?z)", "(t3 (f2 $b $a) ?y ?z)", &[]),
+    ("flip-second", "(t3 ?x (f2 $a $b) ?z)", "(t3 ?x (f2 $b $a) ?z)", &[]),
+    ("flip-third", "(t3 ?x ?y (f2 $a $b))", "(t3 ?x ?y (f2 $b $a))", &[]),
+];
 
 fn rule_at(i: usize) -> &'static (&'static str, &'static str, &'static str, &'static [(&'static str, &'static str)]) {
     if i < POOL.len() { &POOL[i] } else { &EXTRA[i - POOL.len()] }
@@ -433,6 +440,17 @@ pub fn run(ctx: &mut Ctx) {
         }
         let fail_at = if rng.chance(1, 4) { Some(rng.below(3)) } else { None };
         let eqsat = rng.chance(1, 3);
+        if rng.chance(1, 12) {
+            // a class with six slots that gains three independent symmetries, one per rule (in any order of the rules): each
+            // must still hold when the run stops
+            let f2 = |a: u32, b: u32| ATerm { v: 7, fields: vec![CField::Slot(a), CField::Slot(b)], children: vec![] };
+            let t3 = |a: ATerm, b: ATerm, c: ATerm| ATerm { v: 17, fields: vec![CField::App, CField::App, CField::App], children: vec![a, b, c] };
+            let st = vec![t3(f2(4, 8), f2(12, 16), f2(20, 24))];
+            let mut rl = vec![POOL.len() + 3, POOL.len() + 4, POOL.len() + 5];
+            rng.shuffle(&mut rl);
+            ctx.emit(exec_runner_p(st, rl, 30, 1500, None, eqsat, false));
+            continue;
+        }
         if rng.chance(1, 10) {
             // two instances of one rule in the same round that bind both variables to the same class and differ only in how
             // the slots are shared: `x op x` (inserted first) and `x op y`; both must be rewritten before the run may stop
